@@ -73,12 +73,12 @@ CHECKS = {
    text="Every constructor is called and every metadata entry compared field by field; complete for the finite catalog present at check time.",
    note="gen/metadata.json in the tree is the reference; this is the degenerate (depth 1) form of exhaustive exploration."),
  "C18": dict(cat="model_checking", engine="seqx(Graph)", ref="§2 C18",
-   technique="explicit-state BFS over the real file storage / pairing database with exact directory content as state key, every operation executed in every reachable state, step-by-step agreement with a Go map",
+   technique="explicit-state BFS over the real file storage / pairing database with exact directory content as state key, every operation executed in every reachable state, step-by-step agreement with a Go map; plus every history of length 3/4 (and, for one key with same-length values under a clock that does not advance, 4/6) replayed WITHOUT state merging, reads included as operations of the object under test",
    text="Breadth-first search to depth 4/6 (storage) and 2/3 (database) where each transition runs the real operation on a directory rebuilt by replaying the state's shortest history; all return values, listings and entities are compared with a map after every step.",
-   note="State merging on exact directory bytes is sound because the storage object holds only the path. Storage keys are limited to characters hc itself uses."),
+   note="State merging on exact directory bytes is sound only if the storage object holds nothing but the path; the un-merged trees cover objects that cache. Storage keys: the characters hc itself uses, the colon, letter case, '<' and '?'."),
  "C19": dict(cat="fault_enumeration", engine="crashx (strace kill-point injection)", ref="§2 C19",
-   technique="exhaustive crash-point enumeration: the real process is SIGKILLed at the entry of every file-system syscall of every write scenario (strace fault injection), then the store is re-opened and compared with old/new",
-   text="Every file-system syscall of every scenario (16 Set old/new combinations, Delete, SaveEntity ×3, three whole-transport starts) is a kill point on the real code and kernel file system; after each kill every key must read as its previous or its new value in full.",
+   technique="exhaustive crash-point enumeration: the real process is SIGKILLed at the entry of every file-system syscall of every write scenario (strace fault injection), then the store is re-opened and compared with old/new; plus environment answers without a kill, enumerated over small grids: writes cut short (RLIMIT_FSIZE) and a storage directory that is a nearly full file system of its own (tmpfs in a private mount namespace)",
+   text="Every file-system syscall of every scenario (16 Set old/new combinations, Delete, SaveEntity ×3, add-pairing ×3, look-ups, a symbolic link as key file, three whole-transport starts) is a kill point on the real code and kernel file system; after each kill every key must read as its previous or its new value in full.",
    note="Process kill only (page cache survives): power loss and torn single writes are outside the property. Needs ptrace (strace)."),
  "C16": dict(cat="exploration", engine="enumx+refctl", ref="§2 C16",
    technique="bounded exhaustive enumeration of set sequences and parser inputs on the real container, differential against an independent TLV8 codec",
